@@ -35,12 +35,22 @@ POOL = [
 ]
 
 
+def _retry(binary, lines, outs, timeout):
+    """a shard that timed out (overloaded machine) is re-run line by line, once, with a longer limit"""
+    idx = [i for i, o in enumerate(outs) if o == "TIMEOUT"]
+    if idx:
+        again = C.run_lines(binary, [lines[i] for i in idx], shards=max(1, min(C.NPROC, len(idx))), timeout=3 * timeout)
+        for i, o in zip(idx, again):
+            outs[i] = o
+    return outs
+
+
 def vh(lines, shards=C.NPROC, timeout=900):
-    return C.run_lines(C.VH(UNIT), lines, shards=shards, timeout=timeout)
+    return _retry(C.VH(UNIT), lines, C.run_lines(C.VH(UNIT), lines, shards=shards, timeout=timeout), timeout)
 
 
 def vrun(lines, shards=C.NPROC, timeout=900):
-    return C.run_lines(C.VRUN(UNIT), lines, shards=shards, timeout=timeout)
+    return _retry(C.VRUN(UNIT), lines, C.run_lines(C.VRUN(UNIT), lines, shards=shards, timeout=timeout), timeout)
 
 
 def refs_tok(refs):
@@ -96,6 +106,10 @@ class Env:
             g.phs = list(self.pool_hashes)
         scen = scen or r.choice(["single", "single", "multi", "multi", "announce", "concurrent", "message", "ephemeral",
                                  "locks", "dup", "fees", "aggsig", "unknown", "malformed", "limits"])
+        if scen == "limits":
+            # ~1000 conditions: keep them in the solution (pool puzzles are tiny), the model hashes every puzzle twice
+            mode = "pool"
+            g.phs = list(self.pool_hashes)
         sp = getattr(g, "sc_" + scen)()
         g.phs = saved
         if isinstance(sp, tuple):
